@@ -127,14 +127,13 @@ def handle : List String → Option String
     let bucket ← Bytes.ofHex bucket
     let accts ← parseList accts
     let doc ← parseRawDoc doc
-    let v := fun ord => showRes (validateDocument ord bucket (acctOf accts) doc)
-    pure s!"{v id} {v allFirst} {v allLast} {showVerdict (verdict bucket (acctOf accts) doc)}"
+    -- the map order is irrelevant (Props.C14.validate_order_independent): one order suffices
+    pure s!"{showRes (validateDocument id bucket (acctOf accts) doc)} {showVerdict (verdict bucket (acctOf accts) doc)}"
   | ["validated", bucket, accts, pol] => do
     let bucket ← Bytes.ofHex bucket
     let accts ← parseList accts
     let pol ← parsePolicy pol
-    let v := fun ord => showRes (validatePolicy bucket (acctOf accts) (reorder ord pol))
-    pure s!"{v id} {v allFirst} {v allLast}"
+    pure (showRes (validatePolicy bucket (acctOf accts) pol))
   | ["decode", doc] => do
     let doc ← parseRawDoc doc
     pure (match decodeDoc doc with
